@@ -463,3 +463,60 @@ Proof.
   split; [cbn; intros [H|H]; [lia|apply H; reflexivity]|].
   split; [cbn; unfold u32_ok; repeat split; lia|cbn; left; lia].
 Qed.
+
+(* ------------------------------------------------------------------ *)
+(* Typed PREFIX_SID / TUNNEL_ENCAP messages                              *)
+From RB Require Import Proofs.ApiT.
+
+Theorem C17_typed_from_api_total :
+  (forall x, exists r, from_api_psid x = Ok r) /\ (forall x, exists r, from_api_te x = Ok r).
+Proof. split; [exact psid_from_api_total|exact te_from_api_total]. Qed.
+
+Theorem C17_prefix_sid_accepted_wf :
+  forall x a, api_psid_in_range x -> from_api_psid x = Ok (Some a) ->
+    exists p, psid_from_api x = Some p /\ a = mkAttr PREFIX_SID 192 (DBin (psid_encode p)) /\
+              wf_psid p /\ ps_fits p /\ len_ok (psid_encode p).
+Proof. exact psid_accepted_wf. Qed.
+
+Theorem C17_prefix_sid_roundtrip :
+  forall p, wf_psid p -> psid_from_api (psid_to_api p) = Some p.
+Proof. exact psid_roundtrip. Qed.
+
+Theorem C17_tunnel_encap_accepted_wf :
+  forall x a, api_te_in_range x -> from_api_te x = Ok (Some a) ->
+    exists l, te_from_api x = Some l /\ a = mkAttr TUNNEL_ENCAP 192 (DBin (te_encode l)) /\
+              wf_te l /\ te_fits l /\ len_ok (te_encode l).
+Proof. exact te_accepted_wf. Qed.
+
+Theorem C17_tunnel_encap_roundtrip :
+  forall l, wf_te l -> te_listable l -> te_from_api (te_to_api l) = Some l.
+Proof. exact te_roundtrip. Qed.
+
+Definition ex_sid : list N := [32; 1; 13; 184; 0; 0; 0; 0; 0; 0; 0; 0; 0; 0; 0; 1].
+Definition ex_cp : te_cp :=
+  mkCp (Some (0, 100)) (Some (BsMpls 128 100)) (Some (224, ex_sid, Ebs 17 32 16 16 0)) (Some (0, 3)) (Some 7)
+       [(Some (0, 5), [SegA 0 16001; SegB 64 ex_sid (Some (Ebs 17 32 16 16 0))])] (Some [99; 112]) (Some [112]).
+
+(* the hypotheses of the statements above are satisfiable, and the refusals they rest on do happen *)
+Example typed_example :
+  wf_te [TeSr ex_cp; TeRaw 8 []] /\ te_listable [TeSr ex_cp; TeRaw 8 []]
+  /\ te_lists_typed [TeSr ex_cp; TeRaw 8 []] = true
+  /\ wf_psid [PsSvc false [PsInfo ex_sid 17 [PsSt 40 24 16 0 16 64]]]
+  /\ te_from_api [(65551, [])] = None
+  /\ te_from_api [(15, [ATsPrio 256])] = None
+  /\ te_from_api [(15, [ATsPrio 1; ATsPrio 1])] = None
+  /\ te_from_api [(15, [ATsSegList None [ASegA None 1048576]])] = None
+  /\ te_from_api [(15, [ATsBsid6 false false false [1; 2; 3] None])] = None
+  /\ te_lists_typed [TeRaw 8 [1]] = false
+  /\ psid_from_api [APsSvc false [(1, [APsInfo [1; 2; 3] 17 []])]] = None.
+Proof.
+  assert (Hs : bytes_ok ex_sid) by (repeat constructor; lia).
+  split; [|split; [|repeat split; vm_compute; try reflexivity]].
+  - constructor; [|constructor; [cbn; repeat split; try lia; [discriminate|constructor]|constructor]].
+    unfold wf_te_tlv, wf_cp, ex_cp; cbn. repeat split; try lia; try assumption; try reflexivity.
+    all: repeat constructor; cbn; try lia; try assumption; try reflexivity.
+  - constructor; [|constructor; [reflexivity|constructor]].
+    unfold cp_listable, ex_cp; cbn. repeat split; try reflexivity.
+    repeat constructor; cbn; try reflexivity; try (intros _; reflexivity).
+  - repeat constructor; cbn; try lia; try assumption; try reflexivity.
+Qed.
